@@ -99,6 +99,7 @@ class J1939_22:
 
         # Up to 8 concurrent RTS/CTS sessions per originator and responder address pair are allowed.
         self.__rts_cts_session_list = [True] * 8
+        self.__session_lock = threading.Lock()
 
         # number of packets that can be sent/received with CMDT (Connection Mode Data Transfer)
         self._max_cmdt_packets = max_cmdt_packets
@@ -175,20 +176,23 @@ class J1939_22:
         return ((hash >> 24) & 0xFF), ((hash >> 16) & 0xFF), ((hash >> 8) & 0xFF), (hash & 0xFF)
 
     def __get_bam_session(self):
-        for idx, i in enumerate(self.__bam_session_list):
-            if i == True:
-                self.__bam_session_list[idx] = False
-                return idx
+        # several application threads may call send_pgn at the same time: test and take under a lock
+        with self.__session_lock:
+            for idx, i in enumerate(self.__bam_session_list):
+                if i == True:
+                    self.__bam_session_list[idx] = False
+                    return idx
         return None
 
     def __put_bam_session(self, session):
         self.__bam_session_list[session] = True
 
     def __get_rts_cts_session(self):
-        for idx, i in enumerate(self.__rts_cts_session_list):
-            if i == True:
-                self.__rts_cts_session_list[idx] = False
-                return idx
+        with self.__session_lock:
+            for idx, i in enumerate(self.__rts_cts_session_list):
+                if i == True:
+                    self.__rts_cts_session_list[idx] = False
+                    return idx
         return None
 
     def __put_rts_cts_session(self, session):
